@@ -165,6 +165,16 @@ def oracle_mpo(g, qd, opmap, L, ref_dense=None):
     """the second sentence of C05 on a consistent graph `g` (a pytenet OpGraph): returns None or a description"""
     from pytenet.mpo import MPO
     d = len(qd)
+    # domain: the operator map respects the charges (every operator on an edge only connects physical states whose
+    # charge difference equals the charge difference of the edge's nodes), and every id is mapped
+    for e in g.edges.values():
+        dq = g.nodes[e.nids[1]].qnum - g.nodes[e.nids[0]].qnum
+        for oid, _ in e.opics:
+            if oid not in opmap:
+                return None
+            m = opmap[oid]
+            if any(m[a, b] != 0 and qd[a] - qd[b] != dq for a in range(d) for b in range(d)):
+                return None
     try:
         mpo = with_alarm(10.0, lambda: MPO.from_opgraph(qd, g, opmap, compute_nid_map=True))
     except CaseTimeout:
